@@ -253,6 +253,9 @@ class VariableSizedTiles:
 
     def __getitem__(self, idx: Union[SomeIndex2d, ROI]) -> Tuple[slice, slice]:
         idx = norm_slice_2d(idx, self.shape.yx)
+        if any(i.start < 0 for i in idx):
+            # int index below ``-shape`` must not wrap around the offsets array
+            raise IndexError(f"Index {idx} is out of range")
         y, x = (
             slice(int(a[i.start]), int(a[i.stop])) for a, i in zip(self._offsets, idx)
         )
@@ -267,7 +270,16 @@ class VariableSizedTiles:
         :raises: :py:class:`IndexError` when index is outside of ``[(0,0) -> .shape)``.
         """
         idx = iyx_(idx)
-        ny, nx = (int(a[i + 1]) - int(a[i]) for a, i in zip(self._offsets, idx.yx))
+
+        def _sz(a: np.ndarray, i: int) -> int:
+            n = len(a) - 1
+            if i < 0:  # numpy style index from the right
+                i = n + i
+            if 0 <= i < n:
+                return int(a[i + 1]) - int(a[i])
+            raise IndexError(f"Index {idx} is out of range")
+
+        ny, nx = (_sz(a, i) for a, i in zip(self._offsets, idx.yx))
         return Shape2d(x=nx, y=ny)
 
     @property
